@@ -452,6 +452,9 @@ pub struct PmDecoded {
 	pub actual_counts: (u64, u64, u64),
 	/// header bounds [min_lon, min_lat, max_lon, max_lat] in 1e-7 degrees
 	pub bounds_e7: [i32; 4],
+	/// first tile entry (in ascending tile-id order) whose data neither follows the data seen so far directly nor
+	/// refers back into it - what the 'clustered' flag of the header promises never to happen
+	pub not_clustered_at: Option<String>,
 	pub meta: Vec<u8>,
 	pub tiles: TileMap,
 	pub leaf_levels: usize,
@@ -482,7 +485,8 @@ pub fn pm_decode(bytes: &[u8]) -> Result<PmDecoded, String> {
 	let mut tiles = TileMap::new();
 	let mut max_depth = 0;
 	let mut stats: (u64, u64, std::collections::BTreeSet<(u64, u64)>) = (0, 0, Default::default());
-	fn walk(dir: &[u8], leaves: &[u8], data: &[u8], ic: u8, depth: usize, tiles: &mut TileMap, max_depth: &mut usize, stats: &mut (u64, u64, std::collections::BTreeSet<(u64, u64)>)) -> Result<(), String> {
+	let mut order: Vec<(u64, u64, u64)> = vec![];
+	fn walk(dir: &[u8], leaves: &[u8], data: &[u8], ic: u8, depth: usize, tiles: &mut TileMap, max_depth: &mut usize, stats: &mut (u64, u64, std::collections::BTreeSet<(u64, u64)>), order: &mut Vec<(u64, u64, u64)>) -> Result<(), String> {
 		if depth > 3 {
 			return Err("more than 3 leaf levels".into());
 		}
@@ -492,6 +496,7 @@ pub fn pm_decode(bytes: &[u8]) -> Result<PmDecoded, String> {
 				stats.0 += e.run as u64;
 				stats.1 += 1;
 				stats.2.insert((e.offset, e.length));
+				order.push((e.id, e.offset, e.length));
 				let d = slice(data, e.offset, e.length, "tile")?;
 				for i in 0..e.run as u64 {
 					let k = pm_id_to_zxy(e.id + i)?;
@@ -501,15 +506,24 @@ pub fn pm_decode(bytes: &[u8]) -> Result<PmDecoded, String> {
 				}
 			} else {
 				let l = pm_internal_decode(ic, slice(leaves, e.offset, e.length, "leaf")?)?;
-				walk(&l, leaves, data, ic, depth + 1, tiles, max_depth, stats)?;
+				walk(&l, leaves, data, ic, depth + 1, tiles, max_depth, stats, order)?;
 			}
 		}
 		Ok(())
 	}
-	walk(&root, leaves, data, ic, 0, &mut tiles, &mut max_depth, &mut stats)?;
+	walk(&root, leaves, data, ic, 0, &mut tiles, &mut max_depth, &mut stats, &mut order)?;
+	order.sort();
+	let mut running_end = 0u64;
+	let mut not_clustered_at = None;
+	for (id, off, len) in &order {
+		if *off > running_end && not_clustered_at.is_none() {
+			not_clustered_at = Some(format!("tile id {id}: data at offset {off}, data of the smaller ids ends at {running_end}"));
+		}
+		running_end = running_end.max(off + len);
+	}
 	let le_i32 = |o: usize| i32::from_le_bytes(bytes[o..o + 4].try_into().unwrap());
 	let bounds_e7 = [le_i32(102), le_i32(106), le_i32(110), le_i32(114)];
-	Ok(PmDecoded { tile_type: tt, tile_compression: tc, internal_compression: ic, clustered, min_zoom: minz, max_zoom: maxz, counts, actual_counts: (stats.0, stats.1, stats.2.len() as u64), bounds_e7, meta, tiles, leaf_levels: max_depth })
+	Ok(PmDecoded { tile_type: tt, tile_compression: tc, internal_compression: ic, clustered, min_zoom: minz, max_zoom: maxz, counts, actual_counts: (stats.0, stats.1, stats.2.len() as u64), bounds_e7, not_clustered_at, meta, tiles, leaf_levels: max_depth })
 }
 
 #[derive(Debug, Clone, Copy, PartialEq, Eq, serde::Serialize, serde::Deserialize)]
